@@ -38,7 +38,7 @@ ROOTS = {
 MAX_SEQ = 1  # bound on sequence / byte-string lengths in generated encodings
 MAX_STR = 0  # bound on string lengths: decoding a non-empty string goes through core::str::from_utf8, whose
              # validation loop (pointer-alignment fast path) gets no verdict in 10 min for one 1-byte string
-GROUP = 4  # shapes per proof harness
+GROUP = int(os.environ.get("VERIF_SHAPE_GROUP", "4"))  # shapes per proof harness
 
 PRIM = {"U8": ("u8", 1), "U16": ("u16", 2), "U32": ("u32", 4), "U64": ("u64", 8), "I32": ("i32", 4), "I64": ("i64", 8)}
 
